@@ -83,8 +83,8 @@ Classes (deterministic, from the input shape and from what one-by-one execution 
   NOPH   target=<match|other>,prior=<history id>
   FLOW   flow=<script id>,<family>=<constant id>[,quote-in-inline-comment=..]
   NOPS   path=<..>,set:matched-by=<feature kind of the first pattern of the set that matches>@<first|later> (position of
-         that pattern in the set; C16.nop.match);  path=<..>,set:unmatched,kinds=<feature kinds in the set> (statements
-         no pattern matches, incl. the fixture's; C16.nop.other);  path=<..>,set:final-state,kinds=<..>.  The oracle
+         that pattern in the set; C16.nop.match);  path=<..>,set:unmatched,size=<number of patterns in the set> (statements
+         no pattern matches, incl. the fixture's; C16.nop.other);  path=<..>,set:final-state,size=<..>.  The oracle
          for "matches" is Python's re.match(pattern, statement, re.IGNORECASE) for each pattern of the set on its own;
          the statements no pattern matches are run on an instance without the option and must give the same results
          and the same final state.  Only the first diverging statement of a set is a verdict.
@@ -1221,10 +1221,9 @@ def nops_verdicts(pset, with_opt, without):
     configured with the set, `without` ran the statements that no pattern of the set matches (reference: s_matching)
     on an instance without the option.  After the first divergence the two instances are no longer in the same state,
     so only the first one is a verdict (later statements are not evaluated)."""
-    kinds = "+".join(sorted({S_PATTERNS[p][0] for p in pset}))
     out = []
     if with_opt["fixture"]:
-        return [("C16.nop.other", f"set:unmatched,kinds={kinds}", True,
+        return [("C16.nop.other", f"set:unmatched,size={len(pset)}", True,
                  {"what": "statements of the fixture (no pattern matches them) failed", "errors": with_opt["fixture"]})]  # fmt: skip
     j = 0
     any_match = False
@@ -1236,7 +1235,7 @@ def nops_verdicts(pset, with_opt, without):
             cl = ("C16.nop.match", f"set:matched-by={S_PATTERNS[m[0]][0]}@{where}")
             problems = status_problems(got)
         else:
-            cl = ("C16.nop.other", f"set:unmatched,kinds={kinds}")
+            cl = ("C16.nop.other", f"set:unmatched,size={len(pset)}")
             want = without["outcomes"][j]
             j += 1
             problems = [("differs from an instance without the option", {"with": got, "without": want})] if repr(got) != repr(want) else []
@@ -1245,7 +1244,7 @@ def nops_verdicts(pset, with_opt, without):
             return out
     differs = with_opt["state"] != without["state"]
     out.append(
-        ("C16.nop.match" if any_match else "C16.nop.other", f"set:final-state,kinds={kinds}", differs,
+        ("C16.nop.match" if any_match else "C16.nop.other", f"set:final-state,size={len(pset)}", differs,
          {"what": "state after all statements differs from that of the unmatched statements alone on an instance without the option",
           "with": _short_state(with_opt["state"]), "without": _short_state(without["state"])} if differs else {})
     )  # fmt: skip
